@@ -163,6 +163,20 @@ def run(ctx):
         confs += [dict(n=5, w=2, cap=2, faults="AnyFaults"), dict(n=3, w=3, cap=1, faults="AnyFaults"), dict(n=4, w=3, cap=2, faults="AnyOneFault")]
     for c in confs:
         ctx.tlc("MCWorkQueue", cfg_text=WQ_CFG % c, timeout=1800)
+    # items larger than the OS pipe (PipeCap 0) / a pipe of one item: the feeder thread blocks in a write that no dead worker
+    # will ever receive, so the wait for the feeder must look at the workers too (JoinChecked)
+    small = [dict(n=4, w=2, cap=4, faults="AnyFaults", pc=0), dict(n=3, w=2, cap=4, faults="AnyFaults", pc=1)]
+    if not q:
+        small += [dict(n=5, w=2, cap=4, faults="AnyFaults", pc=0), dict(n=4, w=3, cap=6, faults="AnyFaults", pc=1), dict(n=4, w=2, cap=2, faults="AnyFaults", pc=0)]
+    for c in small:
+        ctx.tlc("MCWorkQueue", cfg_text=(WQ_CFG % c).replace("PipeCap = 99", "PipeCap = %d" % c["pc"]), timeout=1800)
+    # negative control: the protocol that joins the feeder unconditionally (before the repair) never ends when every worker
+    # has died with large items still buffered - TLC must refute Ends
+    r = ctx.tlc("MCWorkQueue", cfg_text=(WQ_CFG % small[0]).replace("PipeCap = 99", "PipeCap = 0").replace("JoinChecked = TRUE", "JoinChecked = FALSE"),
+                expect_violation=True, timeout=1800, count=False)
+    if not r.violated:
+        ctx.machinery("TLC did not refute Ends for the unconditional join_thread with PipeCap = 0 (negative control)")
+    ctx.note("negative_control_unchecked_join_thread", str(r.violated))
     l1 = c01.level(1)
     fam = [c01.with_kids(l1[1:2], 2), c01.with_kids([l1[0], l1[3]], 2), frozenset(l1) | {(2, 1, 0), (2, 3, 3), (2, 0, 3)}]
     if not q:
@@ -187,6 +201,11 @@ def run(ctx):
         explore_stage_faults(ctx, c03.TransformStage(2), [2, 3], pols, 2)
     explore_stage_faults(ctx, c03.MultiTanStage(ctx, 3), [2], ["random", "workers-last", "starve-feeder"], 1 if q else 5)
     explore_stage_faults(ctx, c03.MultiWcsStage(ctx, 3), [2], ["random", "workers-last", "starve-feeder"], 1 if q else 5)
+    # images larger than the OS pipe: one fault, and every image failing (all workers dead with images still buffered)
+    mtbig = c03.MultiTanStage(ctx, 5, shape=(150, 160))
+    explore_stage_faults(ctx, mtbig, [2], ["random", "late-timeout"], 1 if q else 4, items_subset=[0, 2, 4])
+    explore_stage_faults(ctx, mtbig, [2, 3], ["random", "workers-last", "late-timeout"], 1 if q else 4, all_items_fail=True)
+    c03.replay_stage(ctx, c03.MultiTanStage(ctx, 4, shape=(150, 160)), 2, 15 if q else 150, 150, faultsets="AnyFaults", pipecap=0)
     # many items, one worker-pair, tiny window: all workers can be dead while the queue is full
     explore_stage_faults(ctx, c03.LeafStage("toast depth 2", 2), [2], ["workers-last", "main-first", "random"], 1 if q else 4, items_subset=[0, 1, 7, 15])
     # every item fails: every worker dies while the producer still has items to put on the full queue
